@@ -86,6 +86,14 @@ class Reject(Exception):
     pass
 
 
+class Reason(Reject):
+    """a poll response with a failure status: an error for DecodePollResponse*, but the status text, NAT type and relay
+    URL still reach the caller (op prr)"""
+    def __init__(self, why, fields):
+        Reject.__init__(self, why)
+        self.fields = fields
+
+
 def fields_of(v, schema):
     """schema: list of (name, 's'|'i'|'p').  The protocol reading of a JSON value as a message:
     must be an object (null = empty object); a field's value is its last occurrence that is
@@ -173,7 +181,7 @@ def spec_pr(v):
         return [X(f[b"Offer"]), X(nat), X(f[b"RelayURL"])]
     if st == b"no match":
         return [X(b""), X(nat), X(f[b"RelayURL"])]
-    raise Reject("broker reported failure status")
+    raise Reason("broker reported failure status", [X(st), X(nat), X(f[b"RelayURL"])])
 
 
 def spec_pr0(v):
@@ -215,7 +223,7 @@ def spec_cps(v):
     return [X(f[b"answer"]), X(f[b"error"])]
 
 
-SPEC = {"ppr": spec_ppr, "ppr0": spec_ppr0, "pr": spec_pr, "pr0": spec_pr0, "ar": spec_ar, "ars": spec_ars,
+SPEC = {"ppr": spec_ppr, "ppr0": spec_ppr0, "pr": spec_pr, "prr": spec_pr, "pr0": spec_pr0, "ar": spec_ar, "ars": spec_ars,
         "cps": spec_cps}
 
 
@@ -230,6 +238,10 @@ def expected_decode(msg, data, jv):
                 raise Reject("client message version is not exactly 1.0")
             return "ok " + " ".join(spec_cpr_body(cparse(jv))), None
         return "ok " + " ".join(SPEC[msg](cparse(jv))), None
+    except Reason as e:
+        if msg == "prr":
+            return "reason " + " ".join(e.fields), None
+        return "err", str(e)
     except Reject as e:
         return "err", str(e)
 
@@ -251,15 +263,18 @@ def expected_roundtrip(msg, a):
             if msg == "ppr":
                 return "ok " + " ".join([X(sid), X(ty), X(nat), str(n), X(pat), "1"])
             return "ok " + " ".join([X(sid), X(ty), X(nat), str(n)])
-        if msg in ("pr", "pr0"):
+        if msg in ("pr", "pr0", "prr"):
             offer, ok, nat = unx(a[0]), a[1] == "1", unx(a[2])
-            relay = unx(a[3]) if msg == "pr" else b""
-            reason = unx(a[4]) if msg == "pr" else b"no match"
+            relay = unx(a[3]) if msg != "pr0" else b""
+            reason = unx(a[4]) if msg != "pr0" else b"no match"
             if ok:
                 if offer == b"":
                     raise Reject("client match without offer")
                 r = [X(offer), X(nat or b"unknown"), X(relay)]
             else:
+                if msg == "prr" and reason not in (b"", b"client match", b"no match"):
+                    # the failure reason is a field of the message: it comes back as the text of the decoder's error
+                    return "reason " + " ".join([X(reason), X(b"unknown"), X(b"")])
                 if reason != b"no match":
                     raise Reject("failure status")
                 r = [X(b""), X(b"unknown"), X(b"")]
@@ -306,9 +321,9 @@ def expected_encode(msg, a):
         pat = unx(a[4]) if msg == "ppr" else b""
         ents = [(b"Sid", S(unx(a[0]))), (b"Version", S(b"1.3")), (b"Type", S(unx(a[1]))), (b"NAT", S(unx(a[2]))),
                 (b"Clients", "d" + hx(a[3].encode()) + ";"), (b"AcceptedRelayPattern", S(pat))]
-    elif msg in ("pr", "pr0"):
-        relay = unx(a[3]) if msg == "pr" else b""
-        reason = unx(a[4]) if msg == "pr" else b"no match"
+    elif msg in ("pr", "pr0", "prr"):
+        relay = unx(a[3]) if msg != "pr0" else b""
+        reason = unx(a[4]) if msg != "pr0" else b"no match"
         if a[1] == "1":
             ents = [(b"Status", S(b"client match")), (b"Offer", S(unx(a[0]))), (b"NAT", S(unx(a[2]))), (b"RelayURL", S(relay))]
         else:
@@ -333,6 +348,8 @@ def prop(line, impl, model):
     op = a[1]
     if impl.startswith("!panic") or impl == "!died":
         return "implementation panicked/died: " + impl[:200]
+    if impl.startswith("!encoder-result-changed"):
+        return "an encoder's result was overwritten by a later encode (the bytes handed to the caller are not the message any more): " + impl[:300]
     if op in ("vsplit", "nsplit"):
         # the library calls whose result the decoders index without (vsplit) / with (nsplit) a length check
         data = unx(a[2])
@@ -369,6 +386,8 @@ def key_of(line, impl, model):
     op = a[1]
     if impl.startswith("!panic") or impl == "!died":
         return op + "-panic"
+    if impl.startswith("!encoder-result-changed"):
+        return "encoder-result-aliased"
     if op in ("vsplit", "nsplit"):
         return op + "-library-contract"
     if op[0] == "d":
@@ -413,7 +432,7 @@ FPS = [b"", DEFAULT_FP, DEFAULT_FP.lower(), DEFAULT_FP[:39], DEFAULT_FP + b"0", 
        b"ab" * 33, b"AB" * 16 + b"cd" * 16, b"zz" * 20, b"2B280B23E1107BB62ABFC40DDCC8824814F80A7G", b" " + DEFAULT_FP[1:], b"ab" * 10, b"ab" * 16,
        b"ab" * 40, b"0x" + DEFAULT_FP[2:], DEFAULT_FP[:20] + b"\xc3\xa9" + DEFAULT_FP[22:]]
 STATUS = [b"client match", b"no match", b"", b"success", b"client gone", b"Client match", b"no match ", b"incorrect relay pattern",
-          b"timed out", b"match"]
+          b"timed out", b"match", b"broker is 100% busy", b"%s", b"%d%%", b"%!v(MISSING)", b"50%", b"a\nb %x"]
 
 
 def variants(rng, name):
@@ -636,6 +655,8 @@ def gen_decode_inputs(ctx):
             else:
                 data = t
             out.append((msg, label, data))
+            if msg == "pr" and rng.random() < 0.5:
+                out.append(("prr", label, data))     # the same bytes, failure reason observed
             if msg in LEGACY and rng.random() < 0.35:
                 out.append((LEGACY[msg], label, data))
     return out + guard_inputs()
@@ -702,6 +723,7 @@ def gen_encode_lines(ctx):
         for _ in range(200 * mul):
             a = [X(pick(STRS)), rng.choice("01"), X(pick(NATV, 0.8)), X(pick([b"", b"wss://snowflake.torproject.net/"], 0.8)), X(pick(STATUS, 0.8))]
             add(both + "pr " + " ".join(a), both + "pr")
+            add(both + "prr " + " ".join(a), both + "prr")
             if rng.random() < 0.3:
                 add(both + "pr0 " + " ".join(a[:3]), both + "pr0")
         for _ in range(150 * mul):
@@ -731,6 +753,7 @@ def gen_encode_lines(ctx):
         for ok in "01":
             for offer in (b"", b"o"):
                 add("rpr %s %s x %s %s" % (X(offer), ok, X(b"wss://r/"), X(st)), "rpr-sweep")
+                add("rprr %s %s x %s %s" % (X(offer), ok, X(b"wss://r/"), X(st)), "rprr-sweep")
     return lines, kinds
 
 
@@ -765,7 +788,8 @@ def run(ctx):
                     "yields for the bytes (harness/overlay/zz_verif/messages/main.go: generic); round-trip theorems assume parse(print v)=v",
                     "python re-statement of the protocol rules in lib/checks/c12.py (spec_*), used as the oracle on the implementation's answers"]
     ctx.assumptions += ["model = coq/Model/JsonBoundary.v + coq/Model/Messages.v (hand written); tie = correspondence on generated cases",
-                        "Go `int` is 64 bit (linux/amd64)", "error text is not compared (class only)",
+                        "Go `int` is 64 bit (linux/amd64)", "error text is not compared (class only), except the failure reason of a proxy poll response, which is the message's Status member (ops dprr/rprr)",
+                        "every encoder result is kept by the driver and compared with a private copy after the following encodes (a result is the caller's)",
                         "no-panic: coq/Model/MessagesPanic.v makes every index / dereference of the decoders an explicit step (the d* ops run "
                         "these refined decoders); strings.Split and bytes.SplitN are executable models compared with the real calls (ops vsplit, nsplit)"]
     inputs = gen_decode_inputs(ctx)
